@@ -77,6 +77,7 @@ type relayWorld struct {
 	streams map[string]*relayStream
 	closedStreams []*relayStream
 	srvClosed     bool
+	dead          bool // after Server.Close: every further event is recorded as EDeadMsg
 	nextPort int // 0 = generator fails
 	lifeMu   sync.Mutex
 	tokenIDs map[string]int
@@ -539,7 +540,11 @@ func (w *relayWorld) settleWith(evTermOf func(acts []string) string) []string {
 	if len(toClient)+len(toPeer) > 0 {
 		w.nontrivial = true
 	}
-	w.steps = append(w.steps, fmt.Sprintf("OS (%s) [%s] %s", evTermOf(acts), strings.Join(acts, "; "), w.listing()))
+	term := evTermOf(acts)
+	if w.dead {
+		term = "EDeadMsg" // whatever is sent to a closed server: the model says nothing happens
+	}
+	w.steps = append(w.steps, fmt.Sprintf("OS (%s) [%s] %s", term, strings.Join(acts, "; "), w.listing()))
 	return acts
 }
 
@@ -1086,7 +1091,32 @@ func (w *relayWorld) evSrvClose() {
 	_ = w.srv.Close()
 	w.srvClosed = true
 	w.settle("ESrvClose")
+	w.dead = true
 	w.stats["srvclose"]++
+}
+
+// afterClose sends a few more messages of every kind to the closed server (over the control connections that were
+// open when it was closed, from new clients, and from peers to the old relayed addresses): nothing may happen.
+func (w *relayWorld) afterClose(b relayBias, ports []int) {
+	for i, n := 0, 2+w.rng.Intn(4); i < n; i++ {
+		ci := w.rng.Intn(len(w.clients))
+		switch w.rng.Intn(6) {
+		case 0:
+			w.evBinding(ci, w.newTid())
+		case 1:
+			w.evAllocateX(ci, w.newTid(), w.genCred(b, ci), attrSpec{2, 17}, attrSpec{}, attrSpec{}, false, verifsim.Pick(w.rng, ports), false, allocExtra{})
+		case 2:
+			w.evRefresh(ci, w.newTid(), w.genCred(b, ci), attrSpec{}, attrSpec{})
+		case 3:
+			p := w.genPeer()
+			w.evSend(ci, &p, true)
+		case 4:
+			w.evPeer(verifsim.Pick(w.rng, ports), false, verifsim.Pick(w.rng, w.peers))
+		case 5:
+			w.evTick(w.genTick())
+		}
+		w.stats["after-close"]++
+	}
 }
 
 func (w *relayWorld) evTick(d time.Duration) {
@@ -1700,6 +1730,7 @@ func runRelayHistory(t *testing.T, rng *verifsim.RNG, prop string, nEvents int) 
 		// closing the server is one more way for every allocation to end
 		if (prop == "C15" && rng.Chance(70)) || (prop != "C15" && rng.Chance(20)) {
 			w.evSrvClose()
+			w.afterClose(b, ports)
 		}
 		term, nontrivial, stats = w.term(), w.nontrivial, w.stats
 		for _, st := range w.streams {
